@@ -298,10 +298,12 @@ def clientStop : List Skel :=
   [ .act (.assign "connect_" "false"), .act (.on "connector_" "stop" "") ]
 
 /-- `Client.newConnection`: `sockSt[k] := .handedOver`, `conns ++ [{ sock := k }]` (a `TcpConnection` on the socket, close
-callback `.client` = `TcpClient::removeConnection`), `connection := some k`, then `.up k` (`connectEstablished`) - the
-trace is `[.handedOver k, .up k]`, `connection_` is set before the UP callback.  Not represented in the model's state:
-the addresses and the name (`getPeerAddr`, `getLocalAddr`, `nextConnId_`: a connection is named by its socket) and the
-three user callbacks handed on -/
+callback `.client` = `TcpClient::removeConnection`), `connection := some k`, then `.up k` (`connectEstablished`) and, inside
+it, the user's callback (`runHookUp`) - the trace is `[.handedOver k, .up k]` followed by what the callback does,
+`connection_` is set before the UP callback.  That order is also the generated `Gen.Client.publishBeforeEstablish`, on
+which the model branches (the callback of the other order would find `connection_` empty).  Not represented in the
+model's state: the addresses and the name (`getPeerAddr`, `getLocalAddr`, `nextConnId_`: a connection is named by its
+socket) and the three user callbacks handed on -/
 def newConnection : List Skel :=
   [ .act (.sys .getPeerAddr "sockfd"),
     .act (.assign "nextConnId_" "++nextConnId_"),
